@@ -155,7 +155,7 @@ public:
 				if (width == 1) return wide ? 4 : 3;
 				if (width == 2) return wide ? 4 : 3;
 				if (width == 4) return wide ? 13 : 3;
-				if (width == 8) return wide ? 5 : 3;
+				if (width == 8) return wide ? 6 : 3;
 				return 1;
 			case K::K_FLOAT: return width == 4 ? 3 : 1;
 			case K::K_REF: return (tag_refs || no_ref_alts) ? 1 : 3;
@@ -174,7 +174,8 @@ public:
 			case 1: return 0;
 			case 2: return mk(0x1 | 0x2 | 0x8 | 0x10 | 0x20 | 0x40);			 // + colours + skin
 			case 3: return mk(0x1 | 0x2 | 0x8 | 0x10 | 0x400 | 0x100);			 // full precision + eye data
-			default: return mk(0x1 | 0x2 | 0x4 | 0x8 | 0x10 | 0x20 | 0x40 | 0x80 | 0x100 | 0x400); // everything
+			case 4: return mk(0x1 | 0x2 | 0x4 | 0x8 | 0x10 | 0x20 | 0x40 | 0x80 | 0x100 | 0x400); // everything
+			default: return mk(0x1 | 0x2 | 0x8 | 0x10 | 0x400) | (uint64_t(6) << 8);		 // UV offset 24: two extra floats per vertex
 		}
 	}
 
@@ -186,7 +187,8 @@ public:
 			case 1: return mk(0x1 | 0x2);
 			case 2: return mk(0x1 | 0x2 | 0x8 | 0x10 | 0x20);
 			case 3: return mk(0x1 | 0x2 | 0x8 | 0x10 | 0x400 | (skinned ? 0 : 0x100));
-			default: return mk(0x1);
+			case 4: return mk(0x1);
+			default: return mk(0x1 | 0x2 | 0x8 | 0x10 | 0x400) | (uint64_t(6) << 8); // two extra floats per vertex
 		}
 	}
 
